@@ -11,7 +11,7 @@ from worlds import GenomeWorld
 import dbutil
 
 PROPS = ('GambitV.Props.C18', 'GambitV.C18')
-TIE = [('GambitV.Tie.PySession', 'GambitV.Tie.Py')]
+TIE = [('GambitV.Tie.PySession', 'GambitV.Tie.Py'), ('GambitV.Tie.PyLoadFlow', 'GambitV.Tie.Py')]
 RULE = ('(a) histories of 1..12 read-side commands / library calls against a scratch copy of a database directory — gambit query (files / list / signature '
         'file; csv / json / archive; strict), dist --use-db, signatures info -d / FILE, signatures create --db-params, tree, library load + query + '
         'indexing, with failing commands interleaved (bad options, mismatching signature file, missing file) — observing sha256 of *.gdb / *.gs and the '
